@@ -537,3 +537,115 @@ Proof.
   - apply ls_solve_sound, Hs.
 Qed.
 End Link.
+
+(* ================================================================== *)
+(* the integer rescaling used by the correspondence; the matrix-form check *)
+(* ================================================================== *)
+Lemma grad_rescale n k A y a b c j :
+  grad n k (fun i j => a * A i j) (fun i => a * b * y i) (fun j => b * c j) j == a * a * b * grad n k A y c j.
+Proof.
+  unfold grad. rewrite <- sumn_scal. apply sumn_ext. intros i _. unfold resid, dotr.
+  rewrite (sumn_ext k (fun j0 => a * A i j0 * (b * c j0)) (fun j0 => (a * b) * (A i j0 * c j0))) by (intros; ring).
+  rewrite sumn_scal. ring.
+Qed.
+Lemma normal_eq_rescale n k A y a b c : ~ a == 0 -> ~ b == 0 ->
+  (normal_eq n k A y c <-> normal_eq n k (fun i j => a * A i j) (fun i => a * b * y i) (fun j => b * c j)).
+Proof.
+  intros Ha Hb. split; intros H j Hj.
+  - rewrite grad_rescale, (H j Hj). ring.
+  - specialize (H j Hj). rewrite grad_rescale in H.
+    destruct (Qmult_integral _ _ H) as [E|E]; [|exact E].
+    destruct (Qmult_integral _ _ E) as [E'|E']; [|contradiction].
+    destruct (Qmult_integral _ _ E'); contradiction.
+Qed.
+
+Lemma gram_check_sound rows ys k s : gram_check rows ys k s = true ->
+  normal_eq (length rows) k (Aof rows) (vof ys) (vof s).
+Proof.
+  unfold gram_check. intros H j Hj. apply (forallb_seq _ k H j) in Hj as Hc.
+  apply Qeq_bool_iff in Hc. rewrite grad_gram.
+  rewrite sumu_sumn in Hc. unfold rhs_l in Hc. unfold vof at 2 in Hc. rewrite (nth_tab k _ j 0 Hj) in Hc.
+  rewrite <- Hc. rewrite (sumn_ext k _ (fun j' => Aof (gram_l rows k) j j' * vof s j')); [ring|].
+  intros j' Hj'. unfold gram_l. rewrite Aof_tab2 by assumption. reflexivity.
+Qed.
+
+(* ================================================================== *)
+(* (b) with the rank condition: the flux vector of t * data is t * (flux vector of data) *)
+(* ================================================================== *)
+Lemma vof_map_scale t ys i : vof (map (Qmult t) ys) i == t * vof ys i.
+Proof.
+  unfold vof. revert i. induction ys as [|yv ys IH]; intros [|i]; cbn; try ring. apply IH.
+Qed.
+Lemma scaled_data_scaled_flux rows ys k t c c' : nonsingular rows k = true ->
+  normal_eq (length rows) k (Aof rows) (vof ys) c ->
+  normal_eq (length rows) k (Aof rows) (vof (map (Qmult t) ys)) c' ->
+  forall l, (l < k)%nat -> c' l == t * c l.
+Proof.
+  intros Hns H H' l Hl.
+  apply (nonsingular_unique rows (map (Qmult t) ys) k c' (fun j => t * c j) Hns H'); [|exact Hl].
+  eapply normal_eq_ext; [| | |apply (normal_eq_scale (length rows) k (Aof rows) (vof ys) t c H)].
+  - intros; reflexivity.
+  - intros i _. symmetry. apply vof_map_scale.
+  - intros; reflexivity.
+Qed.
+
+(* ================================================================== *)
+(* model level: recovery, scaling, background                          *)
+(* ================================================================== *)
+Section ModelLevel.
+Variables (ny nx fy fx sc : Z) (msk : option (list bool)).
+Variables (dataQ : pix -> Q) (errQ : option (pix -> Q)) (psf : Z -> pix -> Q) (bkgQ : Z -> Q).
+Notation GP := (group_problem ny nx fy fx sc msk).
+Notation GR := (group_rows ny nx fy fx sc msk).
+
+Lemma group_problem_rows g rs : GR g = Some rs ->
+  GP dataQ errQ psf bkgQ g = Some (design_of errQ psf (map s_id g) rs, dvec_of dataQ errQ bkgQ rs).
+Proof. unfold group_problem. intros ->. reflexivity. Qed.
+
+(* (a) + (d): RECOVERY of a rendered group, for every mask and every error map *)
+Lemma rendered_group_recovered g rs rows ys fstar :
+  GR g = Some rs -> GP dataQ errQ psf bkgQ g = Some (rows, ys) ->
+  own_light_only dataQ psf bkgQ (map s_id g) rs fstar ->
+  let n := length rows in let k := length g in
+  normal_eq n k (Aof rows) (vof ys) fstar /\ minimiser n k (Aof rows) (vof ys) fstar /\
+  rss n k (Aof rows) (vof ys) fstar == 0 /\
+  (forall i, (i < n)%nat -> resid k (Aof rows) (vof ys) fstar i == 0) /\
+  (nonsingular rows k = true -> forall c, minimiser n k (Aof rows) (vof ys) c -> forall j, (j < k)%nat -> c j == fstar j).
+Proof.
+  intros Hr Hp Hown. rewrite (group_problem_rows g rs Hr) in Hp. injection Hp as <- <-. cbv zeta.
+  assert (E := rendered_rows_exact_form dataQ errQ psf bkgQ (map s_id g) rs fstar Hown).
+  rewrite map_length in E.
+  assert (HN := exact_form_normal_eq _ _ _ _ _ E).
+  split; [exact HN|]. split; [apply normal_eq_minimises, HN|]. split; [apply exact_form_rss, E|].
+  split; [intros i Hi; exact (exact_form_resid _ _ _ _ fstar i E Hi)|].
+  intros Hns c Hc j Hj. apply minimiser_normal_eq in Hc.
+  exact (nonsingular_unique _ _ _ c fstar Hns Hc HN j Hj).
+Qed.
+
+(* (b) the image and the local backgrounds multiplied by t: the flux vector is multiplied by t *)
+Lemma scaled_image_scaled_flux g rs t c :
+  GR g = Some rs ->
+  let rows := design_of errQ psf (map s_id g) rs in
+  normal_eq (length rows) (length g) (Aof rows) (vof (dvec_of dataQ errQ bkgQ rs)) c ->
+  normal_eq (length rows) (length g) (Aof rows)
+            (vof (dvec_of (fun p => t * dataQ p) errQ (fun s => t * bkgQ s) rs)) (fun j => t * c j).
+Proof.
+  intros _ rows H.
+  eapply normal_eq_ext; [| | |apply (normal_eq_scale _ _ _ _ t c H)].
+  - intros; reflexivity.
+  - intros i Hi. unfold rows in Hi. rewrite design_length in Hi. symmetry. apply dvec_scaled, Hi.
+  - intros; reflexivity.
+Qed.
+(* a pedestal b added to the image and removed again through local_bkg changes nothing *)
+Lemma pedestal_invariance g rs b c :
+  GR g = Some rs ->
+  let rows := design_of errQ psf (map s_id g) rs in
+  (normal_eq (length rows) (length g) (Aof rows) (vof (dvec_of dataQ errQ bkgQ rs)) c <->
+   normal_eq (length rows) (length g) (Aof rows)
+             (vof (dvec_of (fun p => dataQ p + b) errQ (fun s => bkgQ s + b) rs)) c).
+Proof.
+  intros _ rows.
+  assert (E := Forall2_Qeq_vof _ _ (dvec_background_shift dataQ errQ bkgQ b rs)).
+  split; intros H; (eapply normal_eq_ext; [| | |exact H]); intros; try reflexivity; [symmetry|]; apply E.
+Qed.
+End ModelLevel.
